@@ -1,10 +1,11 @@
-"""C06: type-switch exhaustiveness tables -> lean/ShVerif/Gen/C06.lean"""
+"""C06: type-switch exhaustiveness and index-site tables -> lean/ShVerif/Gen/C06.lean"""
 GROUP = "C06"
 MARKERS = {"Command": "commandNode", "WordPart": "wordPartNode", "ArithmExpr": "arithmExprNode", "TestExpr": "testExprNode", "Loop": "loopNode"}
 
 def render(d, h):
     syn = d["syntax"]
     L = h.lstr
+    problems = []
     impl = {}
     for iface, marker in MARKERS.items():
         impl[iface] = sorted(t for t, ms in syn["methods"].items() if marker in ms)
@@ -18,6 +19,23 @@ def render(d, h):
     for s in syn["type_switches"]:
         sw.append("  (%s, %s, %s, %s, %s)" % (L(s["file"]), L(s["func"]), L(s["on"]), h.llist(L(c) for c in (s["cases"] or [])), L(s["default"])))
     lines.append("def switches : List (String × String × String × List String × String) := [\n" + ",\n".join(sw) + "\n]")
+    lines.append("")
+    lines.append("/-- every type switch of package typedjson (they range over decoded JSON values, not over syntax nodes) -/")
+    sw = []
+    for s in d.get("typedjson", {}).get("type_switches", []):
+        sw.append("  (%s, %s, %s, %s, %s)" % (L("typedjson/" + s["file"]), L(s["func"]), L(s["on"]), h.llist(L(c) for c in (s["cases"] or [])), L(s["default"])))
+    lines.append("def tjSwitches : List (String × String × String × List String × String) := [\n" + ",\n".join(sw) + "\n]")
+    c = d.get("c06")
+    if not c:
+        problems.append("C06: extractor produced no c06 facts")
+        c = {"index_sites": []}
+    lines.append("")
+    lines.append("/-- every index / slice expression of nodes.go, printer.go, simplify.go, walk.go, typedjson/json.go:")
+    lines.append("    (file, function, indexed expression, index, kind, guard, the syntactic evidence dominating it) -/")
+    sl = []
+    for s in c["index_sites"]:
+        sl.append("  (%s, %s, %s, %s, %s, %s, %s)" % (L(s["file"]), L(s["func"]), L(s["base"]), L(s["index"]), L(s["kind"]), L(s["guard"]), L(" ; ".join(s.get("evidence") or []))))
+    lines.append("def indexSites : List (String × String × String × String × String × String × String) := [\n" + ",\n".join(sl) + "\n]")
     lines.append("\nend ShVerif.Gen.C06")
     h.put("C06", "\n".join(lines) + "\n")
-    return []
+    return problems
